@@ -82,6 +82,27 @@ def gen_refs(rng, m):
         return base
     def met():
         return rng.choice([f"{mn}.{rng.choice(xn)}", f"{mn}.nope", f"ghost.{rng.choice(xn)}", "gm", "nogm", f"{mn}.{rng.choice(xn)}.y", f"{mn}.{rng.choice(dn)}"])
+    if rng.random() < 0.12:
+        # the same field named twice — plain first, then with a granularity (each reference is checked on its own)
+        d0 = rng.choice(m["dims"])
+        first = f"{mn}.{d0['name']}" + (f"__{rng.choice(cal.GRANS)}" if d0["type"] == "time" and rng.random() < 0.5 else "")
+        second = f"{mn}.{d0['name']}__{rng.choice(cal.GRANS + ['fortnight'])}"
+        other = [f"{mn}.{rng.choice(dn)}"] if rng.random() < 0.3 else []
+        return [f"{mn}.{rng.choice(xn)}"] if rng.random() < 0.7 else [], other + [first, second]
+    if rng.random() < 0.45:
+        # mostly-valid stream: accepted reference lists, so that _apply_default_time_dimensions is actually reached —
+        # bare and granular time dimensions, other dimensions, model and graph metrics
+        tn = [d["name"] for d in m["dims"] if d["type"] == "time"]
+        on = [d["name"] for d in m["dims"] if d["type"] != "time"]
+        def vdim():
+            r = rng.random()
+            if tn and r < 0.35:
+                return f"{mn}.{rng.choice(tn)}"
+            if tn and r < 0.6:
+                return f"{mn}.{rng.choice(tn)}__{rng.choice(cal.GRANS)}"
+            return f"{mn}.{rng.choice(on or dn)}"
+        return ([rng.choice([f"{mn}.{rng.choice(xn)}", f"{mn}.{rng.choice(xn)}", "gm"]) for _ in range(rng.choice([0, 1, 1, 2]))],
+                [vdim() for _ in range(rng.choice([0, 1, 1, 2, 3]))])
     return [met() for _ in range(rng.choice([0, 1, 2]))], [dim() for _ in range(rng.choice([0, 1, 2, 3]))]
 
 
@@ -170,6 +191,22 @@ def run(ck: Check):
             if bad <= 4:
                 ck.obligation("correspondence C07: validate_query / _apply_default_time_dimensions vs Lean", False,
                               f"metrics={c['metrics']} dims={c['dims']} real={r} model={{'dims': {a['dims']}, 'validate': {mv}}} model_def={canon(c['models'][0])[:500]}")
+        # property on the real code: the default time dimension is added exactly when one of the model's metrics is
+        # requested and no time dimension of the model is (decided from the accepted reference list alone)
+        m0 = c["models"][0]
+        if r["validate"] == [] and isinstance(r["dims"], list) and not (("gm" in c["metrics"]) and not any("." in x for x in c["metrics"])):
+            tnames = {x["name"] for x in m0["dims"] if x["type"] == "time"}
+            has_metric = any(x.split(".", 1)[0] == m0["name"] for x in c["metrics"] if "." in x)
+            has_time = any(x.split(".", 1)[0] == m0["name"] and x.split(".", 1)[1].split("__")[0] in tnames for x in c["dims"] if "." in x)
+            dtd = m0.get("default_time_dimension")
+            want = list(c["dims"])
+            if dtd and has_metric and not has_time:
+                ref = f"{m0['name']}.{dtd}" + (f"__{m0['default_grain']}" if m0.get("default_grain") else "")
+                if ref not in want:
+                    want.append(ref)
+            if r["dims"] != want:
+                ck.fail_input(f"default time dimension: metrics={c['metrics']} dims={c['dims']} (default {dtd!r}) compiled with dimensions {r['dims']}, the property requires {want}",
+                              {"model": m0, "metrics": c["metrics"], "dims": c["dims"]})
         # property on the real code: a granularity on a non-time or unknown field / bad granularity is rejected
         for d in c["dims"]:
             if "__" in d:
